@@ -236,7 +236,17 @@ def bool_table(node: ast.AST, atom_texts: list[str]) -> dict[tuple[bool, ...], b
             return None if c is None else ev(x.body if c else x.orelse, val)
         if isinstance(x, ast.Name) and x.id in local_vals:
             return ev(local_vals[x.id], val)
-        return val.get(ast.unparse(x))
+        txt = ast.unparse(x)
+        if txt in val:
+            return val[txt]
+        # a negative comparison is the negation of the positive atom (`a not in b`, `a is not b`, `a != b`)
+        if isinstance(x, ast.Compare) and len(x.ops) == 1:
+            flip = {ast.NotIn: ast.In, ast.IsNot: ast.Is, ast.NotEq: ast.Eq, ast.In: ast.NotIn, ast.Is: ast.IsNot, ast.Eq: ast.NotEq}.get(type(x.ops[0]))
+            if flip is not None:
+                pos = ast.unparse(ast.Compare(left=x.left, ops=[flip()], comparators=x.comparators))
+                if pos in val:
+                    return not val[pos]
+        return None
 
     def run(body: list[ast.stmt], val: dict[str, bool]) -> tuple[bool, bool | None]:
         """(returned?, value)"""
